@@ -38,6 +38,8 @@ impl Rng {
 pub struct Trie {
     pub nodes: Vec<(usize, Vec<usize>, Map<String, Value>)>,
     index: HashMap<(usize, String), usize>,
+    /// number of times one call prefix produced an outcome different from the recorded one
+    pub alternates: usize,
 }
 
 impl Trie {
@@ -46,6 +48,7 @@ impl Trie {
         Trie {
             nodes: vec![(0, vec![], body)],
             index: HashMap::new(),
+            alternates: 0,
         }
     }
     pub fn len(&self) -> usize {
@@ -60,14 +63,31 @@ impl Trie {
     pub fn child(&mut self, parent: usize, key: &str, body: Value) -> Result<(usize, bool), String> {
         let body = body.as_object().cloned().unwrap_or_default();
         if let Some(id) = self.lookup(parent, key) {
-            if self.nodes[id].2 != body {
-                return Err(format!(
-                    "non-deterministic outcome at node {id}: {} vs {}",
-                    Value::Object(self.nodes[id].2.clone()),
-                    Value::Object(body)
-                ));
+            if self.nodes[id].2 == body {
+                return Ok((id, false));
             }
-            return Ok((id, false));
+            // The same call prefix gave a different outcome (the code under test depends on something
+            // outside the schedule, e.g. hash iteration order). Both outcomes are kept as sibling
+            // branches and judged; the caller can count them through `alternates`.
+            self.alternates += 1;
+            let mut k = 1;
+            loop {
+                let alt = format!("{key}#alt{k}");
+                match self.lookup(parent, &alt) {
+                    Some(aid) if self.nodes[aid].2 == body => return Ok((aid, false)),
+                    Some(_) => k += 1,
+                    None => {
+                        let id = self.nodes.len();
+                        self.nodes.push((parent, vec![], body));
+                        self.nodes[parent].1.push(id);
+                        self.index.insert((parent, alt), id);
+                        return Ok((id, true));
+                    }
+                }
+                if k > 64 {
+                    return Err(format!("more than 64 different outcomes for one call prefix at node {id}"));
+                }
+            }
         }
         let id = self.nodes.len();
         self.nodes.push((parent, vec![], body));
